@@ -4,6 +4,7 @@
 -/
 import Gama.Lemmas.Export
 import Gama.Model.ExportNet
+import Gama.Model.ExportWF
 namespace Gama.Export
 open Gama.Gen.GkfAttrs Gama.Gen.GkfDoc
 
@@ -19,16 +20,19 @@ structure Codec.LawfulOn (C : Codec K) (R : K → Prop) : Prop where
   rdDeg_fmt : ∀ x, C.rdDeg (C.fmt x) = none       -- a plain number is not a sexagesimal string
   fmt_ne : ∀ x, C.fmt x ≠ ""                      -- the parser's presence test is `s != ""`
 
+/-- the sexagesimal branch (`angles="360"`): `deg2gon (gon2deg x) = x` on the angles the sexagesimal text gives back
+    exactly (`Rd`; C18 `C18_deg2gon_gon2deg_string` bounds the distance for all others), and the two factors
+    0.324 and 1.0/0.324 cancel -/
+structure Codec.DegLawfulOn (C : Codec K) (Rd : K → Prop) : Prop where
+  rdDeg_fmtDeg : ∀ x, Rd x → C.rdDeg (C.fmtDeg x) = some x
+  fromSec_toSec : ∀ x, C.fromSec (C.toSec x) = x
+
 def mirrorIf (C : Codec K) (ys : Bool) (p : Point K) : Point K := if ys then mirrorPoint C p else p
 def mirrorCPointIf (C : Codec K) (ys : Bool) (p : CPoint K) : CPoint K := if ys then mirrorCPoint C p else p
 def mirrorVecIf (C : Codec K) (ys : Bool) (v : Vec K) : Vec K := if ys then mirrorVec C v else v
 def mirrorClusterIf (C : Codec K) (ys : Bool) (c : Cluster K) : Cluster K := if ys then mirrorCluster C c else c
 
 /-! ## points -/
-
-/-- the coordinates of a point are representable -/
-def Point.Rep (R : K → Prop) (p : Point K) : Prop :=
-  (match p.xy with | some v => R v.1 ∧ R v.2 | none => True) ∧ (match p.z with | some z => R z | none => True)
 
 set_option maxRecDepth 4000 in
 set_option maxHeartbeats 4000000 in
@@ -80,16 +84,6 @@ theorem upsert_noop (ps : List (Point K)) (id : String) (f : Point K → Point K
 
 /-! ## parameters and the `<network>` tag -/
 
-/-- what `process_parameters` and the LocalNetwork setters establish -/
-structure Params.WF (C : Codec K) (R : K → Prop) (p : Params K) : Prop where
-  sigma : C.pos p.sigmaApr = true
-  conf : C.pos p.confPr = true ∧ C.lt1 p.confPr = true
-  tol : C.pos p.tolAbs = true
-  alg : ∀ a, p.algorithm = some a → a ∈ algNames
-  ell : ∀ e, p.ellipsoid = some e → C.ellKnown e = true
-  band : -1 ≤ p.covBand
-  rep : R p.sigmaApr ∧ R p.confPr ∧ R p.tolAbs ∧ ∀ l, p.latitude = some l → R (C.latOut l)
-
 set_option maxRecDepth 4000 in
 theorem parse_export_params (C : Codec K) (hC : C.LawfulOn R) (p0 p : Params K) (hw : p.WF C R)
     (h0 : p0.algorithm = none ∧ p0.latitude = none ∧ p0.ellipsoid = none) :
@@ -121,14 +115,6 @@ theorem parse_export_head (C : Codec K) (hC : C.LawfulOn R) (h : Head K) (hrep :
     Except.bind, pure, Except.pure]
 
 /-! ## covariance matrices -/
-
-/-- what `process_cov` / `finish_cov` / `finish_<cluster>` establish for a cluster of `n` observations -/
-structure Cov.WF (R : K → Prop) (c : Cov K) (n : Nat) : Prop where
-  dim_pos : 1 ≤ c.dim
-  band_lt : c.band < c.dim
-  dim_eq : c.dim = n
-  len : c.data.length = c.dim * (c.band + 1) - c.band * (c.band + 1) / 2
-  rep : ∀ x ∈ c.data, R x
 
 theorem flipWith_length (neg : K → K) (bs : List Bool) (xs : List K) : (flipWith neg bs xs).length = xs.length := by
   induction bs generalizing xs with
@@ -171,73 +157,154 @@ theorem parse_export_cov_checked (C : Codec K) (hC : C.LawfulOn R) (n : Nat) (c 
   unfold parseCovChecked
   rw [if_neg hcond, parse_export_cov C.toNumFmt hC.num c h5]
 
-/-- the cov-mat of a `<coordinates>` / `<vectors>` cluster as written (gons): the internal matrix mirrored back -/
-theorem exportCovCall_always (C : Codec K) (ys : Bool) (mir ang : Nat → Bool) (c : Cov K) (call : Bool × Bool)
+/-! ## scaling of the rows of angular observations (sexagesimal seconds) -/
+
+theorem app2_inv (f g : K → K) (h : ∀ x, g (f x) = x) (n : Nat) (x : K) : app2 g n (app2 f n x) = x := by
+  match n with
+  | 0 => rfl
+  | 1 => exact h x
+  | n + 2 => simp [app2, h]
+
+theorem scaleWith_inv (f g : K → K) (h : ∀ x, g (f x) = x) (ns : List Nat) (xs : List K) :
+    scaleWith g ns (scaleWith f ns xs) = xs := by
+  induction ns generalizing xs with
+  | nil => cases xs <;> rfl
+  | cons n ns ih =>
+    cases xs with
+    | nil => rfl
+    | cons x xs => simp [scaleWith, app2_inv f g h, ih]
+
+theorem scaleWith_length (f : K → K) (ns : List Nat) (xs : List K) : (scaleWith f ns xs).length = xs.length := by
+  induction ns generalizing xs with
+  | nil => cases xs <;> rfl
+  | cons n ns ih =>
+    cases xs with
+    | nil => rfl
+    | cons x xs => simp [scaleWith, ih]
+
+theorem scaleCov_inv (f g : K → K) (h : ∀ x, g (f x) = x) (fl : Nat → Bool) (c : Cov K) :
+    scaleCov g fl (scaleCov f fl c) = c := by
+  simp [scaleCov, scaleWith_inv f g h]
+
+theorem scaleWith_zero (f : K → K) (ns : List Nat) (h : ∀ n ∈ ns, n = 0) (xs : List K) : scaleWith f ns xs = xs := by
+  induction ns generalizing xs with
+  | nil => cases xs <;> rfl
+  | cons n ns ih =>
+    cases xs with
+    | nil => rfl
+    | cons x xs =>
+      have hn : n = 0 := h n List.mem_cons_self
+      subst hn
+      simp [scaleWith, app2, ih (fun m hm => h m (List.mem_cons_of_mem _ hm))]
+
+theorem scaleCov_false (f : K → K) (fl : Nat → Bool) (h : ∀ i, fl i = false) (c : Cov K) : scaleCov f fl c = c := by
+  unfold scaleCov
+  rw [scaleWith_zero]
+  intro n hn
+  simp only [entryCounts, List.mem_flatMap, List.mem_map] at hn
+  obtain ⟨_, _, _, _, rfl⟩ := hn
+  simp [h]
+
+theorem flagOf_false (l : List Bool) (h : ∀ b ∈ l, b = false) (i : Nat) : flagOf l i = false := by
+  unfold flagOf
+  rw [List.getD_eq_getElem?_getD]
+  cases hq : l[i - 1]? with
+  | none => rfl
+  | some b => exact h b (List.mem_of_getElem? hq)
+
+/-- the cov-mat of a `<coordinates>` / `<vectors>` cluster as written: the internal matrix mirrored back; no angular rows -/
+theorem exportCovCall_always (C : Codec K) (ys degrees : Bool) (mir : Nat → Bool) (c : Cov K) (call : Bool × Bool)
     (hcall : call = (true, true)) :
-    exportCovCall C call ys false mir ang c = some (exportCov C.toNumFmt (if ys then mirrorCov C.neg mir c else c)) := by
+    exportCovCall C call ys degrees mir (fun _ => false) c = some (exportCov C.toNumFmt (if ys then mirrorCov C.neg mir c else c)) := by
   subst hcall
-  cases ys <;> simp [exportCovCall, covMirrors]
+  cases ys <;> cases degrees <;> simp [exportCovCall, covMirrors, scaleCov_false]
 
-/-- the cov-mat of an `<obs>` / `<height-differences>` cluster as written (gons, band > 0) -/
-theorem exportCovCall_band (C : Codec K) (ys : Bool) (ang : Nat → Bool) (c : Cov K) (call : Bool × Bool)
-    (hcall : call.1 = false) (hb : c.band ≠ 0) :
-    exportCovCall C call ys false (fun _ => false) ang c = some (exportCov C.toNumFmt c) := by
-  obtain ⟨c1, c2⟩ := call
-  simp only at hcall
-  subst hcall
+/-- the cov-mat of an `<obs>` cluster as written (band > 0; the observation list is passed) -/
+theorem exportCovCall_obs (C : Codec K) (ys gons : Bool) (ang : Nat → Bool) (c : Cov K) (hb : c.band ≠ 0) :
+    exportCovCall C covCall_StandPoint ys (!gons) (fun _ => false) ang c = some (exportCov C.toNumFmt (covOut C gons ang c)) := by
   have : (c.band == 0) = false := by simpa using hb
-  cases ys <;> cases c2 <;> simp [exportCovCall, this, mirrorCov_false]
+  cases ys <;> cases gons <;> simp [exportCovCall, covCall_StandPoint, covScalesSeconds, covOut, this, mirrorCov_false]
 
-/-! ## observations of `<obs>` with the degree check -/
+/-- the cov-mat of a `<height-differences>` cluster as written (band > 0; no list: neither mirrored nor scaled) -/
+theorem exportCovCall_hdiffs (C : Codec K) (ys degrees : Bool) (c : Cov K) (hb : c.band ≠ 0) :
+    exportCovCall C covCall_HeightDifferences ys degrees (fun _ => false) (fun _ => false) c = some (exportCov C.toNumFmt c) := by
+  have : (c.band == 0) = false := by simpa using hb
+  cases ys <;> cases degrees <;> simp [exportCovCall, covCall_HeightDifferences, this]
 
-theorem val_of_export (F : NumFmt K) (cf : String) (o : Obs K) (a : Attr × String)
-    (ha : a ∈ (exportObs F true cf o).2) (hv : a.1 = Attr.val) : a.2 = F.fmt o.val := by
-  obtain ⟨a1, a2⟩ := a
-  simp only at hv
-  subst hv
-  simp only [exportObs, dhAttr] at ha
-  repeat' split at ha
-  all_goals simp at ha
-  all_goals simp_all
+/-! ## observations of `<obs>`: gons and degrees -/
 
-theorem route_valDest (k : Kind) (a : Attr) (h : route k.elem a = some (valDest k)) : a = Attr.val := by
-  cases k <;> cases a <;> simp [route, Kind.elem, valDest] at h <;> rfl
+theorem route_val_iff (k : Kind) (a : Attr) : (route k.elem a == some (valDest k)) = (a == Attr.val) := by
+  cases k <;> cases a <;> rfl
 
-theorem parseElemU_plain (C : Codec K) (impl : Kind → K) (cf : String) (cdh : K) (ea : Elem × Attrs) (k : Kind)
-    (hk : kindOf ea.1 = some k) (hdeg : ∀ a ∈ ea.2, degOf C ea.1 k a = none) :
-    parseElemU C impl cf cdh ea = (parseObs C.toNumFmt cf cdh (impl k) k ea.2).map (fun o => (o, false)) := by
-  have hmap : ea.2.map (degSubst C ea.1 k) = ea.2 := by
-    conv => rhs; rw [← List.map_id ea.2]
-    apply List.map_congr_left
-    intro a ha
-    simp [degSubst, hdeg a ha]
-  have hany : ea.2.any (fun a => (degOf C ea.1 k a).isSome) = false := by
-    simp only [List.any_eq_false]
-    intro a ha
-    simp [hdeg a ha]
-  unfold parseElemU
-  rw [hk]
-  simp only [hmap, hany]
+theorem filter_val_export (F : NumFmt K) (cf : String) (o : Obs K) (sval : String) :
+    (exportObsV F true cf o sval).2.filter (fun a => a.1 == Attr.val) = [(Attr.val, sval)] := by
+  simp only [exportObsV, dhAttr]
+  repeat' split
+  all_goals simp
 
-theorem parse_export_elemU (C : Codec K) (hC : C.LawfulOn R) (impl : Kind → K) (cf : String) (o : Obs K)
-    (hw : o.WF C.toNumFmt) (hr : o.Rep R) (hdir : o.kind = .direction → o.from_ = cf) :
-    parseElemU C impl cf C.zero (exportObsU C true cf o) = .ok (o, false) := by
-  have hx : exportObsU C true cf o = exportObs C.toNumFmt true cf o := by simp [exportObsU]
-  have he : (exportObs C.toNumFmt true cf o).1 = o.kind.elem := rfl
-  have hdeg : ∀ a ∈ (exportObs C.toNumFmt true cf o).2, degOf C (exportObs C.toNumFmt true cf o).1 o.kind a = none := by
-    intro a ha
-    unfold degOf
-    by_cases hc : (o.kind.angular && route (exportObs C.toNumFmt true cf o).1 a.1 == some (valDest o.kind)) = true
-    · have hr : route o.kind.elem a.1 = some (valDest o.kind) := by
-        simp only [Bool.and_eq_true, beq_iff_eq] at hc
-        exact hc.2
-      have hv := val_of_export C.toNumFmt cf o a ha (route_valDest o.kind a.1 hr)
-      rw [if_pos hc, hv]
-      exact hC.rdDeg_fmt _
-    · rw [if_neg hc]
-  rw [hx, parseElemU_plain C impl cf C.zero _ o.kind (by rw [he]; exact kindOf_elem _) hdeg,
-    parse_export_obs C.toNumFmt hC.num cf (impl o.kind) o hw hr hdir]
-  rfl
+/-- the value attribute of an exported observation is the text the visitor made -/
+theorem reach_val_export (F : NumFmt K) (cf : String) (o : Obs K) (sval : String) :
+    reach o.kind.elem (valDest o.kind) (exportObsV F true cf o sval).2 = some sval := by
+  have : (exportObsV F true cf o sval).2.filter (fun a => route o.kind.elem a.1 == some (valDest o.kind)) =
+      (exportObsV F true cf o sval).2.filter (fun a => a.1 == Attr.val) := by
+    apply List.filter_congr
+    intro a _
+    exact route_val_iff o.kind a.1
+  simp [reach, this, filter_val_export]
+
+/-- the observation with its standard deviation in the unit of the file -/
+def obsOut (C : Codec K) (gons : Bool) (o : Obs K) : Obs K :=
+  if gons || !o.kind.angular then o else { o with stdev := C.toSec o.stdev }
+
+/-- reading an exported observation: the parser has the observation with its standard deviation still in the unit of
+    the file, and the flag "sexagesimal" exactly for the angular observations of a file in degrees -/
+theorem parse_export_elemU {Rd : K → Prop} (C : Codec K) (hC : C.LawfulOn R) (hD : C.DegLawfulOn Rd) (impl : Kind → K)
+    (gons : Bool) (cf : String) (o : Obs K)
+    (hw : o.WF C.toNumFmt) (hr : o.RepU C R Rd gons) (hdir : o.kind = .direction → o.from_ = cf) :
+    parseElemU C impl cf C.zero (exportObsU C gons cf o) = .ok (obsOut C gons o, !gons && o.kind.angular) := by
+  by_cases hg : (gons || !o.kind.angular) = true
+  · -- the value is a plain number
+    have hx : exportObsU C gons cf o = exportObsV C.toNumFmt true cf o (C.fmt o.val) := by simp [exportObsU, exportObs, hg]
+    have hrep : o.Rep R := by simpa [Obs.RepU, hg] using hr
+    have hv : rdValU C o.kind (C.fmt o.val) = some o.val := by
+      simp [rdValU, hC.rdDeg_fmt, hC.num.rd_fmt _ hrep.val]
+    have hfl : isDegVal C o.kind (exportObsV C.toNumFmt true cf o (C.fmt o.val)).2 = false := by
+      simp [isDegVal, reach_val_export, hC.rdDeg_fmt]
+    have hflag : (!gons && o.kind.angular) = false := by
+      cases gons <;> cases h : o.kind.angular <;> simp_all
+    have hk : kindOf (exportObsV C.toNumFmt true cf o (C.fmt o.val)).1 = some o.kind := kindOf_elem _
+    have ho : obsOut C gons o = o := by simp [obsOut, hg]
+    rw [hx]
+    unfold parseElemU
+    rw [hk]
+    simp only [parse_export_obsV C.toNumFmt hC.num (rdValU C o.kind) (C.fmt o.val) cf (impl o.kind) o hw hv
+      ⟨hrep.stdev, hrep.fromDh, hrep.toDh, hrep.fsDh⟩ hdir, hfl, hflag, ho]
+    rfl
+  · -- degrees, angular: sexagesimal value, standard deviation in seconds
+    have hg' : (gons || !o.kind.angular) = false := by simpa using hg
+    have hang : o.kind.angular = true := by cases gons <;> cases h : o.kind.angular <;> simp_all
+    have hgons : gons = false := by cases gons <;> simp_all
+    subst hgons
+    have hrep : Rd o.val ∧ R (C.toSec o.stdev) ∧ R o.fromDh ∧ R o.toDh ∧ R o.fsDh := by simpa [Obs.RepU, hg'] using hr
+    have hx : exportObsU C false cf o = exportObsV C.toNumFmt true cf { o with stdev := C.toSec o.stdev } (C.fmtDeg o.val) := by
+      simp [exportObsU, hang, visStdevScaled]
+    have hv : rdValU C o.kind (C.fmtDeg o.val) = some o.val := by
+      simp [rdValU, hang, parserTriesDeg2gon, hD.rdDeg_fmtDeg _ hrep.1]
+    have hfl : isDegVal C o.kind (exportObsV C.toNumFmt true cf { o with stdev := C.toSec o.stdev } (C.fmtDeg o.val)).2 = true := by
+      have := reach_val_export C.toNumFmt cf { o with stdev := C.toSec o.stdev } (C.fmtDeg o.val)
+      simp only at this
+      simp [isDegVal, this, hang, parserTriesDeg2gon, hD.rdDeg_fmtDeg _ hrep.1]
+    have hk : kindOf (exportObsV C.toNumFmt true cf { o with stdev := C.toSec o.stdev } (C.fmtDeg o.val)).1 = some o.kind :=
+      kindOf_elem _
+    have ho : obsOut C false o = { o with stdev := C.toSec o.stdev } := by simp [obsOut, hang]
+    have hw' : ({ o with stdev := C.toSec o.stdev } : Obs K).WF C.toNumFmt := ⟨hw.from_ne, hw.to_ne, hw.fs_angle, hw.fs_other⟩
+    have hp := parse_export_obsV C.toNumFmt hC.num (rdValU C o.kind) (C.fmtDeg o.val) cf (impl o.kind)
+      { o with stdev := C.toSec o.stdev } hw' hv ⟨hrep.2.1, hrep.2.2.1, hrep.2.2.2.1, hrep.2.2.2.2⟩ hdir
+    rw [hx]
+    unfold parseElemU
+    rw [hk]
+    simp only at hp
+    simp [hp, hfl, ho, hang, Except.map]
 
 theorem mapM_ok' {α β γ ε : Type} (f : α → Except ε γ) (g : β → α) (h : β → γ) (l : List β)
     (hh : ∀ b ∈ l, f (g b) = .ok (h b)) : (l.map g).mapM f = .ok (l.map h) := by
@@ -249,12 +316,6 @@ theorem mapM_ok' {α β γ ε : Type} (f : α → Except ε γ) (g : β → α) 
     simp [List.mapM_cons, hb, hl, bind, Except.bind, pure, Except.pure]
 
 /-! ## vectors and coordinate points -/
-
-structure Vec.WF (C : Codec K) (R : K → Prop) (v : Vec K) : Prop where
-  from_ne : v.from_ ≠ ""
-  to_ne : v.to ≠ ""
-  dh : v.fromDh = C.zero ∧ v.toDh = C.zero        -- from_dh / to_dh of a vector are not exported (and not used)
-  rep : R v.dx ∧ R v.dy ∧ R v.dz
 
 set_option maxRecDepth 4000 in
 theorem parse_export_vec (C : Codec K) (hC : C.LawfulOn R) (ys : Bool) (v : Vec K) (hw : v.WF C R) :
@@ -271,11 +332,6 @@ theorem parse_export_vec (C : Codec K) (hC : C.LawfulOn R) (ys : Bool) (v : Vec 
   simp [parseVec, exportVec, reach, route, rdOr, sgn, visSigned_dx, visSigned_dy, visSigned_dz, mirrorVecIf, mirrorVec, q1, q2, q3, q4,
     h1, h2, e, bind, Except.bind, pure, Except.pure]
 
-structure CPoint.WF (R : K → Prop) (p : CPoint K) : Prop where
-  id_ne : p.id ≠ ""
-  some_coord : p.xy.isSome = true ∨ p.z.isSome = true
-  rep : (match p.xy with | some v => R v.1 ∧ R v.2 | none => True) ∧ (match p.z with | some z => R z | none => True)
-
 set_option maxRecDepth 4000 in
 theorem parse_export_cpoint (C : Codec K) (hC : C.LawfulOn R) (ys : Bool) (pp : String) (p : CPoint K) (hid : p.id ≠ "")
     (hrep : (match p.xy with | some v => R v.1 ∧ R v.2 | none => True) ∧ (match p.z with | some z => R z | none => True)) :
@@ -289,11 +345,6 @@ theorem parse_export_cpoint (C : Codec K) (hC : C.LawfulOn R) (ys : Bool) (pp : 
   cases xy <;> cases z <;> simp only at hrep <;> cases ys <;>
   simp [parsePointAttrs, exportCPoint, pvar, PAttr.role, mirrorCPointIf, mirrorCPoint, sgn, visSigned_x, visSigned_y, visSigned_z,
     hr, hn, hne, hid, bind, Except.bind, pure, Except.pure, *]
-
-/-- a coordinate observation agrees with the point's coordinates: what `process_coords_point → process_point`
-    establishes (the observed coordinates overwrite the approximate ones) -/
-def agrees (p : Point K) (c : CPoint K) : Prop :=
-  (∀ v, c.xy = some v → p.xy = some v) ∧ (∀ v, c.z = some v → p.z = some v)
 
 theorem apply_noop (id : String) (p : Point K) (c : CPoint K) (h : agrees p c) :
     (⟨id, c.xy, c.z, [], []⟩ : PointUpd K).apply p = p := by
@@ -374,24 +425,45 @@ theorem coords_header (ext : String) :
     (sattr (if ext ≠ "" then [("extern", ext)] else []) "extern").getD "" = ext := by
   by_cases h : ext = "" <;> simp [h, sattr, coordsAttrs]
 
-/-- invariants of a cluster; `s0` = sigma-apr, `ps` = the active points -/
-def Cluster.WF (C : Codec K) (R : K → Prop) (s0 : K) (ps : List (Point K)) : Cluster K → Prop
-  | .obs sp cov =>
-    (∀ o ∈ sp.obs, o.WF C.toNumFmt ∧ o.Rep R ∧ (o.kind = .direction → o.from_ = sp.station)) ∧
-    (∀ c, cov = some c → c.band ≠ 0 ∧ c.WF R sp.obs.length)
-  | .hdiffs dhs cov =>
-    (∀ h ∈ dhs, h.from_ ≠ "" ∧ h.to ≠ "" ∧ (C.pos h.dist = false → h.dist = C.zero) ∧
-                (C.pos h.dist = true → h.stdev = C.sdDist s0 h.dist) ∧
-                (R h.val ∧ (C.pos h.dist = true → R h.dist) ∧ (C.pos h.dist = false → R h.stdev))) ∧
-    (∀ c, cov = some c → c.band ≠ 0 ∧ c.WF R dhs.length)
-  | .coords _ pts cov =>
-    (∀ c ∈ pts, c.WF R) ∧ cov.WF R (coordFlags pts).length ∧
-    (∀ c ∈ pts, (∃ p ∈ ps, p.id = c.id) ∧ ∀ p ∈ ps, p.id = c.id → agrees p c)
-  | .vectors vecs cov => (∀ v ∈ vecs, v.WF C R) ∧ cov.WF R (vecFlags vecs).length
+/-- `finish_obs` undoes the seconds on the standard deviation of a flagged observation -/
+theorem obs_back {Rd : K → Prop} (C : Codec K) (hD : C.DegLawfulOn Rd) (gons : Bool) (obs : List (Obs K)) :
+    (obs.map (fun o => (obsOut C gons o, !gons && o.kind.angular))).map
+      (fun of => if (of.2 && parserScalesSeconds) = true then { of.1 with stdev := C.fromSec of.1.stdev } else of.1) = obs := by
+  rw [List.map_map]
+  conv => rhs; rw [← List.map_id obs]
+  apply List.map_congr_left
+  intro o _
+  cases gons <;> cases h : o.kind.angular <;> simp [obsOut, h, parserScalesSeconds, hD.fromSec_toSec]
 
-theorem parse_export_cluster' (C : Codec K) (hC : C.LawfulOn R) (impl : Kind → K) (par : Params K) (ys : Bool)
-    (ps0 : List (Point K)) (cl : List (Cluster K)) (pp : String) (c : Cluster K) (hw : c.WF C R par.sigmaApr ps0) :
-    ∃ pp', parseItem C impl par ⟨ps0.map (mirrorIf C ys), cl, pp⟩ (exportCluster' C ys true c)
+/-- … and on the rows of the covariance matrix -/
+theorem cov_back {Rd : K → Prop} (C : Codec K) (hD : C.DegLawfulOn Rd) (gons : Bool) (obs : List (Obs K)) (cv : Cov K) :
+    (if ((obs.map (fun o => (obsOut C gons o, !gons && o.kind.angular))).any (·.2) && parserScalesSeconds) = true then
+       scaleCov C.fromSec (flagOf ((obs.map (fun o => (obsOut C gons o, !gons && o.kind.angular))).map (·.2)))
+         (covOut C gons (flagOf (obs.map (fun o => o.kind.angular))) cv)
+     else covOut C gons (flagOf (obs.map (fun o => o.kind.angular))) cv) = cv := by
+  cases gons
+  · have hfl : (obs.map (fun o => (obsOut C false o, !false && o.kind.angular))).map (·.2) = obs.map (fun o => o.kind.angular) := by
+      simp [List.map_map, Function.comp_def]
+    by_cases hany : (obs.map (fun o => (obsOut C false o, !false && o.kind.angular))).any (·.2) = true
+    · simp only [hany, parserScalesSeconds, Bool.and_self, if_true, hfl, covOut, Bool.false_eq_true, if_false]
+      exact scaleCov_inv _ _ hD.fromSec_toSec _ _
+    · have hall : ∀ b ∈ obs.map (fun o => o.kind.angular), b = false := by
+        intro b hb
+        obtain ⟨o, ho, rfl⟩ := List.mem_map.mp hb
+        have : ¬ ((obs.map (fun o => (obsOut C false o, !false && o.kind.angular))).any (·.2) = true) := hany
+        simp only [List.any_map, List.any_eq_true, not_exists, not_and] at this
+        have := this o ho
+        simpa using this
+      have hany' : (obs.map (fun o => (obsOut C false o, !false && o.kind.angular))).any (·.2) = false := by simpa using hany
+      simp only [hany', Bool.false_and, Bool.false_eq_true, if_false, covOut]
+      exact scaleCov_false _ _ (flagOf_false _ hall) _
+  · have hany : (obs.map (fun o => (obsOut C true o, !true && o.kind.angular))).any (·.2) = false := by simp
+    simp only [hany, Bool.false_and, Bool.false_eq_true, if_false, covOut, if_true]
+
+theorem parse_export_cluster' {Rd : K → Prop} (C : Codec K) (hC : C.LawfulOn R) (hD : C.DegLawfulOn Rd) (impl : Kind → K)
+    (par : Params K) (ys gons : Bool)
+    (ps0 : List (Point K)) (cl : List (Cluster K)) (pp : String) (c : Cluster K) (hw : c.WF C R Rd gons par.sigmaApr ps0) :
+    ∃ pp', parseItem C impl par ⟨ps0.map (mirrorIf C ys), cl, pp⟩ (exportCluster' C ys gons c)
       = .ok ⟨ps0.map (mirrorIf C ys), cl ++ [mirrorClusterIf C ys c], pp'⟩ := by
   cases c with
   | obs sp cov =>
@@ -400,28 +472,22 @@ theorem parse_export_cluster' (C : Codec K) (hC : C.LawfulOn R) (impl : Kind →
     simp only at h1 h2
     refine ⟨pp, ?_⟩
     obtain ⟨g1, g2, g3, g4⟩ := obs_header station
-    have hm := mapM_ok' (parseElemU C impl station C.zero) (exportObsU C true station) (fun o => (o, false)) obs
-      (fun o ho => parse_export_elemU C hC impl station o (h1 o ho).1 (h1 o ho).2.1 (h1 o ho).2.2)
+    have hm := mapM_ok' (parseElemU C impl station C.zero) (exportObsU C gons station)
+      (fun o => (obsOut C gons o, !gons && o.kind.angular)) obs
+      (fun o ho => parse_export_elemU C hC hD impl gons station o (h1 o ho).1 (h1 o ho).2.1 (h1 o ho).2.2)
     have hmir : mirrorClusterIf C ys (.obs ⟨station, obs⟩ cov) = .obs ⟨station, obs⟩ cov := by
       cases ys <;> rfl
-    have hobs : (obs.map (fun o => (o, false))).map
-        (fun of => if of.2 = true then { of.1 with stdev := C.fromSec of.1.stdev } else of.1) = obs := by
-      rw [List.map_map]
-      conv => rhs; rw [← List.map_id obs]
-      apply List.map_congr_left
-      intro o _
-      simp
-    have hany : (obs.map (fun o => ((o, false) : Obs K × Bool))).any (·.2) = false := by
-      simp
+    have hobs := obs_back C hD gons obs
     cases cov with
     | none =>
       simp only [exportCluster', parseItem, g1, g2, g3, g4, rdOr, hm, hobs, hmir, Option.bind_none, Bool.false_eq_true, if_false]
     | some cv =>
       obtain ⟨hb, hcw⟩ := h2 cv rfl
-      have hbb : (cv.band == 0) = false := by simpa using hb
-      have hcall : covCall_StandPoint.1 = false := by simp [covCall_StandPoint]
-      simp only [exportCluster', parseItem, g1, g2, g3, g4, rdOr, hm, hobs, hany, hmir, Option.bind_some, Bool.not_true,
-        exportCovCall_band C ys _ cv _ hcall hb, List.length_map, parse_export_cov_checked C hC _ cv hcw, hbb,
+      have hbb : ((covOut C gons (flagOf (obs.map (fun o => o.kind.angular))) cv).band == 0) = false := by
+        cases gons <;> simpa [covOut, scaleCov] using hb
+      have hcb := cov_back C hD gons obs cv
+      simp only [exportCluster', parseItem, g1, g2, g3, g4, rdOr, hm, hobs, hmir, Option.bind_some,
+        exportCovCall_obs C ys gons _ cv hb, List.length_map, parse_export_cov_checked C hC _ _ hcw, hbb, hcb,
         Bool.false_eq_true, if_false]
   | hdiffs dhs cov =>
     obtain ⟨h1, h2⟩ := hw
@@ -439,9 +505,8 @@ theorem parse_export_cluster' (C : Codec K) (hC : C.LawfulOn R) (impl : Kind →
     | some cv =>
       obtain ⟨hb, hcw⟩ := h2 cv rfl
       have hbb : (cv.band == 0) = false := by simpa using hb
-      have hcall : covCall_HeightDifferences.1 = false := by simp [covCall_HeightDifferences]
-      simp only [exportCluster', parseItem, hel, hm, hmir, List.map_id', Option.bind_some, Bool.not_true,
-        exportCovCall_band C ys _ cv _ hcall hb, List.length_map, parse_export_cov_checked C hC _ cv hcw, hbb,
+      simp only [exportCluster', parseItem, hel, hm, hmir, List.map_id', Option.bind_some,
+        exportCovCall_hdiffs C ys _ cv hb, List.length_map, parse_export_cov_checked C hC _ cv hcw, hbb,
         Bool.false_eq_true, if_false]
   | coords ext pts cov =>
     obtain ⟨h1, h2, h3⟩ := hw
@@ -464,7 +529,7 @@ theorem parse_export_cluster' (C : Codec K) (hC : C.LawfulOn R) (impl : Kind →
     have hmir : mirrorClusterIf C ys (.coords ext pts cov) =
         .coords ext (pts.map (mirrorCPointIf C ys)) (if ys then mirrorCov C.neg (mirOf (coordFlags pts)) cov else cov) := by
       cases ys <;> simp [mirrorClusterIf, mirrorCluster, mirrorCPointIf_true, mirrorCPointIf_false]
-    simp only [exportCluster', parseItem, g1, g2, hpts, Bool.not_true,
+    simp only [exportCluster', parseItem, g1, g2, hpts,
       exportCovCall_always C ys _ _ cov covCall_Coordinates rfl, coordFlags_mirror,
       parse_export_cov_checked C hC _ _ hcw, hmir, Bool.false_eq_true, if_false]
   | vectors vecs cov =>
@@ -479,7 +544,7 @@ theorem parse_export_cluster' (C : Codec K) (hC : C.LawfulOn R) (impl : Kind →
     have hmir : mirrorClusterIf C ys (.vectors vecs cov) =
         .vectors (vecs.map (mirrorVecIf C ys)) (if ys then mirrorCov C.neg (mirOf (vecFlags vecs)) cov else cov) := by
       cases ys <;> simp [mirrorClusterIf, mirrorCluster, mirrorVecIf_true, mirrorVecIf_false]
-    simp only [exportCluster', parseItem, hm, Bool.not_true,
+    simp only [exportCluster', parseItem, hm,
       exportCovCall_always C ys _ _ cov covCall_Vectors rfl, vecFlags_map,
       parse_export_cov_checked C hC _ _ hcw, hmir]
 
@@ -511,46 +576,34 @@ theorem points_phase (C : Codec K) (hC : C.LawfulOn R) (impl : Kind → K) (par 
     rw [hrest]
     simp
 
-theorem clusters_phase (C : Codec K) (hC : C.LawfulOn R) (impl : Kind → K) (par : Params K) (ys : Bool) (ps0 : List (Point K))
-    (cs : List (Cluster K)) (hw : ∀ c ∈ cs, c.WF C R par.sigmaApr ps0) (cl : List (Cluster K)) (pp : String) :
-    ∃ pp', (cs.map (exportCluster' C ys true)).foldlM (parseItem C impl par) ⟨ps0.map (mirrorIf C ys), cl, pp⟩
+theorem clusters_phase {Rd : K → Prop} (C : Codec K) (hC : C.LawfulOn R) (hD : C.DegLawfulOn Rd) (impl : Kind → K) (par : Params K)
+    (ys gons : Bool) (ps0 : List (Point K))
+    (cs : List (Cluster K)) (hw : ∀ c ∈ cs, c.WF C R Rd gons par.sigmaApr ps0) (cl : List (Cluster K)) (pp : String) :
+    ∃ pp', (cs.map (exportCluster' C ys gons)).foldlM (parseItem C impl par) ⟨ps0.map (mirrorIf C ys), cl, pp⟩
       = .ok ⟨ps0.map (mirrorIf C ys), cl ++ cs.map (mirrorClusterIf C ys), pp'⟩ := by
   induction cs generalizing cl pp with
   | nil => exact ⟨pp, by simp [pure, Except.pure]⟩
   | cons c cs ih =>
-    obtain ⟨pp1, h1⟩ := parse_export_cluster' C hC impl par ys ps0 cl pp c (hw c List.mem_cons_self)
+    obtain ⟨pp1, h1⟩ := parse_export_cluster' C hC hD impl par ys gons ps0 cl pp c (hw c List.mem_cons_self)
     obtain ⟨pp2, h2⟩ := ih (fun c' h' => hw c' (List.mem_cons_of_mem _ h')) (cl ++ [mirrorClusterIf C ys c]) pp1
     refine ⟨pp2, ?_⟩
     simp only [List.map_cons, List.foldlM_cons, h1, bind, Except.bind]
     rw [h2]
     simp
 
-/-- what GKFparser (+ the setters it calls) establishes, as far as export_xml can write it back:
-    parameters within their guards, output in gons, point ids non-empty and distinct, every cluster well-formed
-    (`Cluster.WF`).  All components are bounded quantifications over the lists of the network and equalities. -/
-structure Net.WF (C : Codec K) (R : K → Prop) (n : Net K) : Prop where
-  par : n.par.WF C R
-  gons : n.par.gons = true
-  epoch : ∀ e, n.head.epoch = some e → R e
-  ids : ∀ p ∈ n.points, p.id ≠ "" ∧ p.Rep R
-  nodup : (n.points.map (·.id)).Nodup
-  clusters : ∀ c ∈ n.clusters, c.WF C R n.par.sigmaApr (n.points.filter Point.active)
-
-/-- export_xml skips the points that are not active (`if (!point.active()) continue;`) -/
-def canon (n : Net K) : Net K := { n with points := n.points.filter Point.active }
-
-theorem parse_export_raw (C : Codec K) (hC : C.LawfulOn R) (impl : Kind → K) (par0 : Params K) (n : Net K) (hw : n.WF C R) :
+theorem parse_export_raw {Rd : K → Prop} (C : Codec K) (hC : C.LawfulOn R) (hD : C.DegLawfulOn Rd) (impl : Kind → K) (par0 : Params K)
+    (n : Net K) (hw : n.WF C R Rd) :
     parseRaw C impl par0 (exportNet C n) =
       .ok ⟨n.head, n.descr, n.par, (n.points.filter Point.active).map (mirrorIf C n.head.ys),
            n.clusters.map (mirrorClusterIf C n.head.ys)⟩ := by
-  obtain ⟨h1, h2, he, h3, h4, h5⟩ := hw
+  obtain ⟨h1, he, h3, h4, h5⟩ := hw
   have hsub : ∀ p ∈ n.points.filter Point.active, p ∈ n.points := fun p hp => (List.mem_filter.mp hp).1
   obtain ⟨pp1, hp1⟩ := points_phase C hC impl n.par n.head.ys [] (n.points.filter Point.active) [] ""
     (fun p hp => h3 p (hsub p hp)) ((List.filter_sublist.map _).nodup h4) (fun _ _ q hq => by simp at hq)
-  obtain ⟨pp2, hp2⟩ := clusters_phase C hC impl n.par n.head.ys (n.points.filter Point.active) n.clusters h5 [] pp1
+  obtain ⟨pp2, hp2⟩ := clusters_phase C hC hD impl n.par n.head.ys n.par.gons (n.points.filter Point.active) n.clusters h5 [] pp1
   simp only [parseRaw, exportNet, parse_export_head C hC n.head he,
     parse_export_params C hC { par0 with algorithm := none, latitude := none, ellipsoid := none } n.par h1 ⟨rfl, rfl, rfl⟩,
-    List.foldlM_append, h2, bind, Except.bind, List.any_nil, Bool.false_eq_true, if_false]
+    List.foldlM_append, bind, Except.bind, List.any_nil, Bool.false_eq_true, if_false]
   simp only [List.nil_append] at hp1 hp2
   rw [hp1]
   simp only [hp2]
@@ -585,10 +638,11 @@ theorem mirrorCluster_mirrorCluster (C : Codec K) (hC : C.LawfulOn R) (c : Clust
   | vectors vecs cov =>
     simp only [mirrorCluster, vecFlags_map, map_invol _ (mirrorVec_mirrorVec C hC), mirrorCov_mirrorCov C.neg hC.neg_neg]
 
-theorem parse_export_net (C : Codec K) (hC : C.LawfulOn R) (impl : Kind → K) (par0 : Params K) (n : Net K) (hw : n.WF C R) :
+theorem parse_export_net {Rd : K → Prop} (C : Codec K) (hC : C.LawfulOn R) (hD : C.DegLawfulOn Rd) (impl : Kind → K) (par0 : Params K)
+    (n : Net K) (hw : n.WF C R Rd) :
     parseNet C impl par0 (exportNet C n) = .ok (canon n) := by
   unfold parseNet
-  rw [parse_export_raw C hC impl par0 n hw]
+  rw [parse_export_raw C hC hD impl par0 n hw]
   simp only [Except.map, mirrorNet, canon]
   cases hy : n.head.ys
   · have e1 : mirrorIf C false = id := funext fun _ => rfl
